@@ -19,6 +19,10 @@
 (*   "predicateKeepsPolarity"  the operands of a comparison / arithmetic   *)
 (*                      operator are visited with the polarity of the      *)
 (*                      comparison                                         *)
+(*   "negPassesPolarity"  unary minus, ln and log had no visitor: their    *)
+(*                      operands were visited with the polarity unchanged  *)
+(*                      (-(p and q), violated where p and q holds, was     *)
+(*                      explained by nothing)                              *)
 (***************************************************************************)
 EXTENDS Sem
 
@@ -53,9 +57,10 @@ Ex(p, I, flag, W, N, S, M, Dev) ==
   IF p.op = "var" THEN {<<p.v, k>> : k \in I}
   ELSE IF p.op = "const" THEN {}
   ELSE IF p.op \in {"abs", "sqrt", "exp"} THEN L(I, below)
-  ELSE IF p.op \in {"neg", "ln"} THEN L(I, flag)                          \* (no visitor of their own: the arguments pass through)
+  ELSE IF p.op \in {"neg", "ln"} THEN L(I, IF "negPassesPolarity" \in Dev THEN flag ELSE below)
   ELSE IF p.op \in {"pred", "add", "sub", "mul", "div", "pow"} THEN L(I, below) \cup Rr(I, below)
-  ELSE IF p.op \in {"log", "iff", "xor"} THEN L(I, flag) \cup Rr(I, flag)
+  ELSE IF p.op = "log" THEN (IF "negPassesPolarity" \in Dev THEN L(I, flag) \cup Rr(I, flag) ELSE L(I, below) \cup Rr(I, below))
+  ELSE IF p.op \in {"iff", "xor"} THEN L(I, flag) \cup Rr(I, flag)    \* (no visitor of their own: the arguments pass through)
   ELSE IF p.op = "not" THEN L(I, Opp(flag))
   ELSE IF p.op = "and" THEN
     (IF Holds(flag, TRUE) THEN L(I, flag) \cup Rr(I, flag)
@@ -100,9 +105,10 @@ ReportedFor(E, v) == {pr[2] : pr \in {q \in E : q[1] = v}}
 \* property C20: the reported positions are a sufficient cause - every trace X (over the value set Vs) that agrees with W
 \* on them still violates the specification at time 0
 \* "X satisfies p at time 0": the Boolean semantics where it applies (predicates over arithmetic terms); where a predicate
-\* compares the value of a temporal / Boolean sub-formula, a strictly positive robustness (definitely satisfied)
+\* compares the value of a temporal / Boolean sub-formula, or an arithmetic operator stands in verdict position (-(p and q)),
+\* a strictly positive robustness (definitely satisfied)
 SatisfiedAt0(p, X, N, S, M) ==
-  IF SatUndef(p, X, N, S) THEN (LET r == Sig(p, X, N, S, M)[1] IN r # Undef /\ r > 0) ELSE Sat(p, X, N, S)[1]
+  IF ~IsBoolFormula(p) \/ SatUndef(p, X, N, S) THEN (LET r == Sig(p, X, N, S, M)[1] IN r # Undef /\ r > 0) ELSE Sat(p, X, N, S)[1]
 SufficientCause(p, W, N, S, M, E, vs, Vs) ==
   \A X \in [vs -> [1..N -> Vs]] :
     (\A v \in vs : \A k \in ReportedFor(E, v) : X[v][k] = W[v][k]) => ~SatisfiedAt0(p, X, N, S, M)
